@@ -14,6 +14,7 @@ struct Cci {
 	cci: rm::Win,
 	cands: VecDeque<RC>,
 	prev: f64,
+	flat: bool,
 }
 
 /// do two candles have exactly the same source quantity (an exact predicate of the inputs)?
@@ -43,6 +44,7 @@ pub fn make(cfg: &Cfg, c0: &RC) -> Option<Box<dyn IndRef>> {
 		// † follows the implementation: the oscillator of the constant prehistory is 0/0; yata starts from 0
 		prev: 0.0,
 		src,
+		flat: false,
 	}))
 }
 
@@ -56,7 +58,8 @@ impl IndRef for Cci {
 		}
 		// † follows the implementation: the formula is 0/0 on a window of n identical values; yata's stated
 		// branch ("deviation is not positive") gives 0 there. "All n values are identical" is an exact predicate.
-		if (1..self.n).all(|i| same_src(&self.cands[i - 1], &self.cands[i], &self.src)) {
+		self.flat = (1..self.n).all(|i| same_src(&self.cands[i - 1], &self.cands[i], &self.src));
+		if self.flat {
 			return vec![Q::exact(0.0)];
 		}
 		vec![v]
@@ -72,6 +75,13 @@ impl IndRef for Cci {
 		let buy = v < -z && self.prev >= -z;
 		self.prev = v;
 		vec![sig_sign(buy as i32 - sell as i32)]
+	}
+	fn class(&self) -> &'static str {
+		if self.flat {
+			"flat-window"
+		} else {
+			""
+		}
 	}
 	indref!(Cci);
 }
